@@ -310,6 +310,13 @@ def _build(node, env, memo):
     elif op == "join":
         pred = lib_expr(env, node[3]) if node[3] is not None else None
         kw = {}
+        if len(node) > 4 and node[4] == "apply":
+            # the operation-level entry point: an unresolved Join applied directly to both operands
+            from lsst.daf.relation import Join
+
+            r = (Join(pred) if pred is not None else Join()).apply(build(node[1], env, memo), build(node[2], env, memo))
+            memo[key] = r
+            return r
         if len(node) > 4 and node[4]:
             kw = dict(backtrack=node[4][0], transfer=node[4][1])
         r = build(node[1], env, memo).join(build(node[2], env, memo), pred, **kw)
